@@ -11,10 +11,13 @@ fn main() {
             let tier = vlib::run::Tier::from_args(args.get(3).map(|s| s.as_str()));
             let code = match vlib::props::e1_prop(&id) {
                 Some(p) => vlib::e1::run(p, tier),
-                None => {
-                    eprintln!("unknown property {id}");
-                    2
-                }
+                None => match vlib::cliprops::cli_prop(&id) {
+                    Some(p) => vlib::clirun::run(p, tier),
+                    None => {
+                        eprintln!("unknown property {id}");
+                        2
+                    }
+                },
             };
             std::process::exit(code);
         }
@@ -24,7 +27,10 @@ fn main() {
             let id = v["property"].as_str().unwrap_or("").to_string();
             let code = match vlib::props::e1_prop(&id) {
                 Some(p) => vlib::e1::replay(p, &v),
-                None => 2,
+                None => match vlib::cliprops::cli_prop(&id) {
+                    Some(p) => vlib::clirun::replay(p, &v),
+                    None => 2,
+                },
             };
             std::process::exit(code);
         }
